@@ -1290,4 +1290,69 @@ theorem write_read_first_window (st : St) (s : Slot) (rest : List Slot) (off : N
   simp only [List.flatMap_cons, List.flatMap_nil, List.append_nil, readSeg, List.getElem?_cons_zero, hg.1]
   rw [slotRead_slotWrite_same]
 
+/-! ## the chunk loop of iwp_copy_bytes is memmove -/
+
+theorem length_writeAt_ge (f : Bytes) (off : Nat) (d : Bytes) : f.length ≤ (writeAt f off d).length := by
+  by_cases hd : d = []
+  · subst hd; exact Nat.le_refl _
+  · rw [length_writeAt _ _ _ hd]; omega
+
+/-- the chunk loop of `iwp_copy_bytes` is one `memmove` when the source lies in the file and the destination
+    does not start inside the source (the case the code accepts) -/
+theorem copyLoop_eq (cbuf : Nat) (hc : 0 < cbuf) (off siz noff : Nat) : ∀ (fuel : Nat) (F : Bytes) (pos : Nat),
+    siz - pos ≤ fuel → pos ≤ siz → off + siz ≤ F.length → (noff ≤ off ∨ off + siz ≤ noff + pos) →
+    copyLoop cbuf fuel F off siz noff pos = writeAt F (noff + pos) (readAt F (off + pos) (siz - pos))
+  | 0, F, pos, hf, hp, _, _ => by
+    have : siz - pos = 0 := by omega
+    simp [copyLoop, this, readAt_zero, writeAt_nil]
+  | fuel + 1, F, pos, hf, hp, hlen, hdis => by
+    unfold copyLoop
+    by_cases hlt : pos < siz
+    · simp only [hlt, if_true]
+      have hm : (readAt F (off + pos) (min cbuf (siz - pos))).length = min cbuf (siz - pos) := by
+        rw [length_readAt]; omega
+      have hm0 : 0 < min cbuf (siz - pos) := by omega
+      rw [if_neg (by omega)]
+      rw [hm]
+      have hlen' : off + siz ≤ (writeAt F (noff + pos) (readAt F (off + pos) (min cbuf (siz - pos)))).length :=
+        Nat.le_trans hlen (length_writeAt_ge _ _ _)
+      rw [copyLoop_eq cbuf hc off siz noff fuel _ (pos + min cbuf (siz - pos)) (by omega) (by omega) hlen' (by omega)]
+      rw [readAt_writeAt_disjoint _ _ _ _ _ (by omega) (by rw [hm]; omega)]
+      have hadj := writeAt_writeAt_adj F (noff + pos) (readAt F (off + pos) (min cbuf (siz - pos)))
+        (readAt F (off + (pos + min cbuf (siz - pos))) (siz - (pos + min cbuf (siz - pos))))
+      rw [hm] at hadj
+      rw [show noff + (pos + min cbuf (siz - pos)) = noff + pos + min cbuf (siz - pos) by omega, hadj]
+      congr 1
+      rw [show off + (pos + min cbuf (siz - pos)) = off + pos + min cbuf (siz - pos) by omega, ← readAt_add]
+      congr 1; omega
+    · have : siz - pos = 0 := by omega
+      simp [hlt, this, readAt_zero, writeAt_nil]
+
+theorem rangesOverlap_forward (off siz noff : Nat) (h : noff ≤ off ∨ off + siz ≤ noff) :
+    (rangesOverlap off (off + siz) noff (noff + siz) && decide (noff > off)) = false := by
+  unfold rangesOverlap
+  rcases h with h | h
+  · simp; omega
+  · by_cases hs : siz = 0
+    · subst hs; simp; omega
+    · simp; omega
+
+theorem fileCopy_eq_memmove (cbuf : Nat) (hc : 0 < cbuf) (F : Bytes) (off siz noff : Nat) (hlen : off + siz ≤ F.length)
+    (h : noff ≤ off ∨ off + siz ≤ noff) :
+    fileCopy cbuf F off siz noff = (.ok, writeAt F noff (readAt F off siz)) := by
+  unfold fileCopy
+  rw [rangesOverlap_forward off siz noff h]
+  simp only [Bool.false_eq_true, if_false]
+  rw [copyLoop_eq cbuf hc off siz noff siz F 0 (by omega) (by omega) hlen (by omega)]
+  simp
+
+theorem fileCopy_forward (cbuf : Nat) (F : Bytes) (off siz noff : Nat) (h1 : off < noff) (h2 : noff < off + siz) :
+    fileCopy cbuf F off siz noff = (.overflow, F) := by
+  unfold fileCopy rangesOverlap
+  have h3 : decide (off + siz > noff) = true := by simp; omega
+  have h4 : decide (off + siz ≤ noff + siz) = true := by simp; omega
+  have h5 : decide (noff > off) = true := by simp; omega
+  rw [h3, h4, h5]
+  simp
+
 end IwModel.Exf
